@@ -82,6 +82,33 @@ def onestep(a, finv, x, y, z):
     return lat * mp.sign(z), h
 
 
+def tangential_offset(a, finv, x, y, z):
+    """R of Props/C05.roundtrip_error_partial: (|z|·cc − p·s1)/D + e²·a·s1·cc/(D·W) with (s1, cc) of the one-step scheme;
+    None in the pole branch"""
+    f, b, e2 = params(a, finv)
+    e4t = e2 * e2 * mp.mpf("1.5")
+    ec2 = 1 - e2
+    ec = mp.sqrt(ec2)
+    p2 = x * x + y * y
+    absz = abs(z)
+    if p2 <= a * a * mp.mpf(float(1e-32)):
+        return None
+    p = mp.sqrt(p2)
+    s0 = absz / a
+    pn = p / a
+    zc = ec * s0
+    c0 = ec * pn
+    a0 = mp.sqrt(c0 * c0 + s0 * s0)
+    d0 = zc * a0**3 + e2 * s0**3
+    f0 = pn * a0**3 - e2 * c0**3
+    b0 = e4t * s0 * s0 * c0 * c0 * pn * (a0 - ec)
+    s1 = d0 * f0 - b0 * s0
+    cc = ec * (f0 * f0 - b0 * c0)
+    D = mp.sqrt(s1 * s1 + cc * cc)
+    W = mp.sqrt(ec2 * s1 * s1 + cc * cc)
+    return (absz * cc - p * s1) / D + e2 * a * s1 * cc / (D * W)
+
+
 def llh2trs(a, finv, lat, lon, h):
     f, b, e2 = params(a, finv)
     w = (1 - f) ** 2
@@ -102,6 +129,11 @@ def main():
         lat, lon, h = exact_geodetic(a, finv, x, y, z)
         lat1, h1 = onestep(a, finv, x, y, z)
         res = {"exact": [mp.nstr(v, 30) for v in (lat, lon, h)], "onestep": [mp.nstr(v, 30) for v in (lat1, h1)]}
+        # the algorithm in exact arithmetic: its round-trip error, and the closed form R of that error
+        X1, Y1, Z1 = llh2trs(a, finv, lat1, lon, h1)
+        res["onestep_roundtrip"] = mp.nstr(mp.sqrt((X1 - x) ** 2 + (Y1 - y) ** 2 + (Z1 - z) ** 2), 20)
+        R = tangential_offset(a, finv, x, y, z)
+        res["R"] = None if R is None else mp.nstr(R, 20)
         if job.get("llh"):
             la, lo, hh = (mph(v) for v in job["llh"])
             X, Y, Z = llh2trs(a, finv, la, lo, hh)
